@@ -76,7 +76,7 @@ BetweenMinMax ==
         LET R == RepOf(members, o)  cs == CandOf(o)
         IN R.out = "ok" =>
             /\ \A k \in Nucs : Between(R.dens[k], {BlockDens(cs[i], k) : i \in Idx(cs)})
-            /\ \A k \in Nucs : Between(R.ntemp[k], IF o.rep = "Median" THEN TempSources(<<members[R.src]>>, k) ELSE TempSources(cs, k))
+            /\ R.ntemp # <<>> => \A k \in Nucs : Between(R.ntemp[k], IF o.rep = "Median" THEN TempSources(<<members[R.src]>>, k) ELSE TempSources(cs, k))
             /\ R.mode # "block" => \A c \in Comps : \A k \in Nucs : Between(R.cdens[c][k], {RInt(cs[i].n[c][k]) : i \in Idx(cs)})
             /\ R.ctemp # <<>> => \A c \in Comps : Between(R.ctemp[c], {RInt(cs[i].t[c]) : i \in Idx(cs)})
             /\ (R.lfp <=> members[R.src].lfp)
@@ -90,7 +90,7 @@ CommonValue ==
             /\ R.mode # "block" => \A c \in Comps : \A k \in Nucs :
                    (\A i \in Idx(cs) : cs[i].n[c][k] = cs[1].n[c][k]) => R.cdens[c][k] = RInt(cs[1].n[c][k])
             /\ R.ctemp # <<>> => \A c \in Comps : (\A i \in Idx(cs) : cs[i].t[c] = cs[1].t[c]) => R.ctemp[c] = RInt(cs[1].t[c])
-            /\ \A k \in Nucs : (\A i \in Idx(cs) : \A c \in HoldersOf(k) : cs[i].t[c] = cs[1].t[CHOOSE d \in HoldersOf(k) : TRUE])
+            /\ R.ntemp # <<>> => \A k \in Nucs : (\A i \in Idx(cs) : \A c \in HoldersOf(k) : cs[i].t[c] = cs[1].t[CHOOSE d \in HoldersOf(k) : TRUE])
                    => (HoldersOf(k) # {} => R.ntemp[k] = RInt(cs[1].t[CHOOSE d \in HoldersOf(k) : TRUE]))
             /\ (\A i \in Idx(cs) : cs[i].bu = cs[1].bu) /\ (o.rep = "Median" \/ \E i \in Idx(cs) : cs[i].hm > 0) => R.bu = RInt(cs[1].bu)
 \* "unchanged by duplicating every member"
